@@ -57,6 +57,8 @@ impl<'a, 'b: 'a> Decoder<'a, 'b> {
         let bytes_len = self.bytes.len();
         if self.offset < bytes_len {
             let start = self.offset;
+            #[cfg(dns_message_parser_verif)]
+            crate::verif::count(bytes_len - start);
             self.offset = bytes_len;
             let bytes = self.bytes.slice(start..self.offset);
             Ok(bytes)
